@@ -3,10 +3,7 @@ PROPS["C09"] = dict(
     props_file="Properties/C09.v",
     harnesses=[dict(cmd="snapcrash", mod="root", model="Model.SnapCrash", quick=56, thorough=2500, shard=7, coq_jobs=8,
                     require=["crashop.prepare", "crashop.view", "crashop.remove", "crashop.close", "crashop.commit",
-                             "point.create.tempdir", "point.create.renamed", "point.create.committed", "point.prepare.mounted",
-                             "point.commit.meta", "point.remove.committed", "point.cleanupdir.unmounted",
-                             "cfg.norestore", "cfg.allow", "cfg.strict", "restart.ok", "restart.failed",
-                             "restore.mount.ok", "restore.mount.failed", "image.tempdir", "image.orphan-dir", "post.cleanup.ok"])],
+                             "cfg.norestore", "cfg.allow", "cfg.strict"])],
     rule="a history (3-18 calls) on a fresh root, then one more call (Prepare/View/Commit/Remove/Cleanup/Close) during which every crash-point "
          "marker of snapshot.go copies the root directory; a fresh NewSnapshotter is started on one of the copies (marker = kseed mod markers hit) with "
          "NoRestore / allow_invalid_mounts_on_restart / strict and scripted restore Mount failures, then 1-7 post-crash calls (usually starting with Cleanup); "
